@@ -13,12 +13,19 @@ RACE=""
 case "$ID" in C16|C19) RACE="-race";; esac
 BIN="$VERIF/bin/vcheck${RACE:+-race}"
 cd "$VERIF/harness" || exit 2
-cp /repo/go.sum go.sum 2>/dev/null
+REPO="${VERIF_REPO:-/repo}"
+cp "$REPO/go.sum" go.sum 2>/dev/null
 LOG="$VERIF/out/build-$ID.log"
+MODFILE=""
+if [ "$REPO" != "/repo" ]; then
+  # scratch worktree of the repository (used while developing and for seeded changes)
+  sed "s#=> /repo#=> $REPO#" go.mod > "$VERIF/out/alt.mod"; cp go.sum "$VERIF/out/alt.sum"
+  MODFILE="-modfile=$VERIF/out/alt.mod"
+fi
 (
   flock 9
-  if ! go build $RACE -tags verif -o "$BIN" ./cmd/vcheck >"$LOG" 2>&1; then
-    if go build $RACE -o "$BIN" ./cmd/vcheck >>"$LOG" 2>&1; then
+  if ! go build $MODFILE $RACE -tags verif -o "$BIN" ./cmd/vcheck >"$LOG" 2>&1; then
+    if go build $MODFILE $RACE -o "$BIN" ./cmd/vcheck >>"$LOG" 2>&1; then
       echo "NOTE property=$ID hooks unavailable: tagged build failed, running without hooks"
     else
       cat "$LOG"
